@@ -446,10 +446,11 @@ impl Brc20ProgDatabase {
     }
 
     pub fn set_tx_trace(&mut self, tx_hash: B256, trace: TraceED) -> Result<(), Box<dyn Error>> {
+        let block_number = self.get_next_block_height()?;
         self.db_tx_trace
             .as_mut()
             .expect(DB_MUTEX_ERROR)
-            .set(0, &tx_hash.into(), trace)
+            .set(block_number, &tx_hash.into(), trace)
     }
 
     pub fn set_tx_receipt(
